@@ -19,7 +19,8 @@ ID = 'C18'
 LEVEL = 'exploration'
 RULE = (
     "Hypothesis, four case kinds. (json) dicts with keys = non-negative ints and strings that are "
-    "not str.isdigit() (the loader documents digit strings -> ints); values from a recursive "
+    "not str.isdigit() (the loader documents digit strings -> ints), among them number-like names "
+    "such as '2019_01', '12 ', '+5', '1e3'; values from a recursive "
     "strategy over None, bool, int (beyond 2**63), finite and non-finite float, Unicode str, list, "
     "nested dict (string keys, also digit-only ones, which stay strings below the top level), NumPy scalars (bool, ints, floats), ndarrays of bool, (u)int8-64, "
     "float16-64, complex64/128 and big-endian variants, rank 0..3, empty, Fortran-ordered, "
@@ -193,6 +194,9 @@ def equal(obs, exp, path='$'):
 
 _text = st.text(st.characters(blacklist_categories=('Cs',)), max_size=8)
 _skey = _text.filter(lambda s: not s.isdigit() and not s.startswith(('$', '__')))
+# strings that look like numbers without being str.isdigit(): they are names, not ids
+_numlike = st.sampled_from(['2019_01', '12 ', ' 7', '1_0', '+5', '-3', '1e3', '1.0', '0x10', '3\n',
+                            '1_000', '7a', '\t4'])
 _finite = st.floats(allow_nan=False, allow_infinity=False)
 _float = _finite | st.sampled_from(['nan', 'inf', '-inf']).map(lambda s: {'$': 'f', 'v': s})
 _int = st.integers(-10, 10) | st.integers(-2 ** 70, 2 ** 70)
@@ -229,7 +233,7 @@ _json_value = st.recursive(
 @st.composite
 def _json_case(draw):
     n = draw(st.integers(0, 5))
-    keys = draw(st.lists(st.integers(0, 12) | st.integers(0, 2 ** 65) | _skey, min_size=n,
+    keys = draw(st.lists(st.integers(0, 12) | st.integers(0, 2 ** 65) | _skey | _numlike, min_size=n,
                          max_size=n, unique_by=lambda k: str(k)))
     return {'k': 'json', 'items': [[k, draw(_json_value)] for k in keys]}
 
